@@ -339,6 +339,26 @@ Theorem C12_register_open : forall (A : Type) (zero : A) (ops : list (op A)) s v
 Proof. exact (@register_open). Qed.
 Print Assumptions C12_register_open.
 
+(* ===== JSON round trip (ChargingNetwork.from_json(net.to_json())) =====
+   `json_reload lossy` models the reload; `lossy` says whether a matrix without rows loses its second dimension
+   (probed on the implementation on every run).  Full-strength statement "the reloaded network is the network"
+   holds when the serialisation is not lossy ... *)
+Theorem C12_json_roundtrip_lossless : forall (A : Type) (j : jnet A), json_reload false j = j.
+Proof. exact (@json_reload_lossless). Qed.
+Print Assumptions C12_json_roundtrip_lossless.
+
+(* ... and, whatever the serialisation does with row-less matrices, on every reachable network that still has a
+   constraint or never had one: the reload changes nothing and every later operation behaves as on the original, so
+   all theorems above carry over.  (The remaining case — all constraints removed, then reloaded — is the open
+   finding refuted in Props/C12_findings.v.) *)
+Theorem C12_json_roundtrip_partial : forall (A : Type) (zero : A) (ops : list (op A)) lossy,
+  let n := run zero ops net0 in
+  cnames n <> [] \/ cmat n = None ->
+  json_reload lossy (mkJ n false) = mkJ n false /\
+  forall o, jstep zero o (mkJ n false) = (fst (step zero o n), mkJ (snd (step zero o n)) false).
+Proof. exact (@json_roundtrip_identity). Qed.
+Print Assumptions C12_json_roundtrip_partial.
+
 (* ===== non-vacuity: a concrete history =====
    stations registered in the order 5, 2, 9 (2 twice); constraints "pod" = 1*s2 + 1*s9 (listed 9 first),
    default-named 0.5*s5 - s2, a second "pod" (filed as "pod_v2"), "pod" removed, "pod_v2" updated. *)
